@@ -138,14 +138,15 @@ def asker_never_hangs(run, f, sp):
         cfg = cfg_of(b)
         fnname = sr.short_fn(site.root)
         # the arm that leads here: all blocks reachable from the guard arm
-        gs = [g for g in sp.guards(b, site.bb) if g[2] in ("Err", "true")]
+        gs = [g for g in sp.guards(b, site.bb) if g[2] in ("Err", "true")] or list(sp.guards(b, site.bb))
         arm_entry = None
         for kind, subj, arm, sbb in gs:
             info_t = b.blocks[sbb].term
-            # pick the arm target dominating the site
+            # pick the arm target dominating the site (the innermost one when guards nest)
             for v, tgt in info_t["arms"] + [["x", info_t["otherwise"]]]:
                 if tgt == site.bb or cfg.dominates(tgt, site.bb):
-                    arm_entry = tgt
+                    if arm_entry is None or cfg.dominates(arm_entry, tgt):
+                        arm_entry = tgt
         if arm_entry is None:
             run.fail("O3.3", "failure-arm:%s:%s" % (variant, fnname), "cannot locate the failing arm", loc=site.loc)
             continue
